@@ -16,11 +16,12 @@ Transcribes:
   * `DnsHeader`, `DnsQuestion.unpack_read/pack`, `DnsResource.unpack_read`   dns.py:278-359
   * `DnsMessage.unpack/pack`  dns.py:361-437
 
-Labels are *byte strings*: NFC normalisation, UTF-8 encoding/decoding and the IDNA decoding of
-labels starting with "xn--" are parameters of the model (the harness applies the code's own
-normalisation / encoding before handing labels over and compares at the byte level).  The one place
-where the byte-level model needs to know about UTF-8 is the truncation of over-long labels, which
-drops whole code points (`dropLastCp`).
+Labels are *byte strings*: NFC normalisation and the IDNA decoding of labels starting with "xn--"
+are parameters of the model (the harness applies the code's own normalisation before handing labels
+over and compares at the byte level; a label with the ACE prefix makes the model answer `idna`,
+"outside the model").  UTF-8 is modelled as far as the code depends on it: strict validity of a
+received label (`label.decode("utf-8")` raises otherwise) and code-point boundaries when an
+over-long label is truncated (`dropLastCp`).
 
 A `BytesIO` is modelled as the immutable message plus a position (`Nat`): `read(n)` at `pos` is
 `(msg.drop pos).take n` (short at EOF, exactly like `BytesIO.read`), `seek` is unrestricted.
@@ -60,12 +61,42 @@ def encPtr (t : Nat) : Bytes := [UInt8.ofNat (192 + t / 256), UInt8.ofNat (t % 2
 
 /-! ## decoder: `parse_domain_name` -/
 
-inductive Err | struct | assert | value | unicode | hang
+inductive Err | struct | assert | value | unicode | hang | idna
   deriving DecidableEq, Repr
 
 def Err.toStr : Err → String
   | .struct => "struct" | .assert => "assert" | .value => "value"
-  | .unicode => "unicode" | .hang => "hang"
+  | .unicode => "unicode" | .hang => "hang" | .idna => "idna"
+
+def inRange (b : UInt8) (lo hi : Nat) : Bool := lo ≤ b.toNat && b.toNat ≤ hi
+
+/-- strict UTF-8 as CPython decodes it (no overlong forms, no surrogates, ≤ U+10FFFF) -/
+def utf8Valid : Bytes → Bool
+  | [] => true
+  | b0 :: r =>
+    if b0.toNat < 0x80 then utf8Valid r
+    else if inRange b0 0xC2 0xDF then
+      match r with
+      | b1 :: r' => inRange b1 0x80 0xBF && utf8Valid r'
+      | _ => false
+    else if inRange b0 0xE0 0xEF then
+      match r with
+      | b1 :: b2 :: r' =>
+        (if b0.toNat = 0xE0 then inRange b1 0xA0 0xBF
+         else if b0.toNat = 0xED then inRange b1 0x80 0x9F else inRange b1 0x80 0xBF)
+          && inRange b2 0x80 0xBF && utf8Valid r'
+      | _ => false
+    else if inRange b0 0xF0 0xF4 then
+      match r with
+      | b1 :: b2 :: b3 :: r' =>
+        (if b0.toNat = 0xF0 then inRange b1 0x90 0xBF
+         else if b0.toNat = 0xF4 then inRange b1 0x80 0x8F else inRange b1 0x80 0xBF)
+          && inRange b2 0x80 0xBF && inRange b3 0x80 0xBF && utf8Valid r'
+      | _ => false
+    else false
+
+/-- `label[:4] == b"xn--"` -/
+def isAce (l : Bytes) : Bool := l.take 4 == [120, 110, 45, 45]
 
 /-- result of `parse_domain_name`: labels read so far (also on failure — the harness needs them
     because the real code decodes each label as it goes) and the stream position afterwards. -/
@@ -94,7 +125,9 @@ def parseNameF (msg : Bytes) : Nat → Nat → List Bytes → Option Nat → Nam
           parseNameF msg f ((n % 64) * 256 + lo.toNat) acc (some (ret.getD (pos + 2)))
       else if n / 64 = 0 then
         let label := (msg.drop (pos + 1)).take n      -- may be short at EOF
-        parseNameF msg f (pos + 1 + label.length) (acc ++ [label]) ret
+        if isAce label then ⟨some .idna, acc, pos + 1 + label.length⟩       -- label.decode("idna"): parameter
+        else if utf8Valid label then parseNameF msg f (pos + 1 + label.length) (acc ++ [label]) ret
+        else ⟨some .unicode, acc, pos + 1 + label.length⟩
       else ⟨some .assert, acc, pos + 1⟩                 -- assert length_flags in (0, 0b11)
 
 /-- `parse_domain_name(buffer)` with the stream at `pos`.  Every terminating run visits pairwise
